@@ -121,7 +121,13 @@ func exploreItem(c *vf.Ctx, it item, idx int, race bool) {
 	ref, rerr := it.b.run(it.N, tp.New(1, it.Buf))
 	refErr := ""
 	if rerr != nil {
-		refErr = rerr.Error()
+		// a body that already fails sequentially would make the comparison vacuous
+		c.HarnessError(fmt.Sprintf("body %s (n=%d) fails sequentially: %v", it.Body, it.N, rerr))
+		return
+	}
+	if len(ref) == 0 {
+		c.HarnessError(fmt.Sprintf("body %s (n=%d) has an empty outcome", it.Body, it.N))
+		return
 	}
 	e := &explorer{}
 	outcomes := map[string]bool{}
